@@ -6,9 +6,11 @@
   commit history per file (`World.hist`): every release of an exclusive lock appends the contents it
   leaves behind — this is the linearization order (lock order).  Every running operation carries the
   ghost snapshots `h0` = history when it was called and `h1` = history at its flock step.
-  Proofs: `GIV/Lemmas/LockedfileData.lean`, `GIV/Lemmas/LockedfileLin.lean`.
+  Proofs: `GIV/Lemmas/LockedfileData.lean` (who mutates), `GIV/Lemmas/LockedfileLin.lean` (history snapshots,
+  Read), `GIV/Lemmas/LockedfileTransform.lean` (invariant TransOK, one lemma per control point),
+  `GIV/Lemmas/LockedfileWrite.lean` (invariant WriteOK).
 -/
-import GIV.Lemmas.LockedfileTransform
+import GIV.Lemmas.LockedfileWrite
 
 namespace GIV.C07
 open GIV GIV.Lockedfile
@@ -125,44 +127,234 @@ example : ∃ s s', Reachable noFiles s ∧ step s (sy 0) = some s' ∧ (s.w.loc
 example : ((run (demoWR.take 5)).get (by decide +kernel)).w.hist 0 = [[]] ∧
     ((run (demoWR.take 6)).get (by decide +kernel)).w.hist 0 = [[97, 98], []] := by decide +kernel
 
-/-! ### Write and Transform: statements (not proved in Lean; tied by the correspondence run) -/
+/-! ### Write and Transform -/
 
-/-- **Statement** (kept as a definition): a Write that suffers no fault commits exactly its content. -/
-def write_commits_statement : Prop :=
-  ∀ (files0 : Path → Option Bytes) (s : State) (c : Cid) (fr : Frame) (p : Path) (content : Bytes) (r : Ret),
-    Reachable files0 s → (s.cl c).cur = some fr → fr.op = .write p content → fr.pc = .done r → fr.flt = [] →
-    r = .ok ∧ fr.committed = some content
+/-- What a finished Transform knows (invariant `TransOK`, Lemmas/LockedfileTransform): `TDone` relates
+its result and its faults to what it committed, `Pushed`: its commit sits directly on the history of its
+flock step. -/
+theorem transform_done {files0 : Path → Option Bytes} {s : State} (hr : Reachable files0 s) {c : Cid} {fr : Frame}
+    {p : Path} {t : Bytes → Option Bytes} {r : Ret} (hc : (s.cl c).cur = some fr) (hop : fr.op = .transform p t)
+    (hpc : fr.pc = .done r) : TDone t fr.h1 fr.flt fr.committed r ∧ Pushed s.w p fr.h1 fr.committed := by
+  have := reachable_Inv4 hr c fr p t hc hop
+  unfold TransOK at this; rw [hpc] at this
+  have hp : fr.op.path = p := by rw [hop]; rfl
+  rw [hp] at this; exact this
 
-/-- **Statement**: Transform applies its function to the newest committed contents and publishes the
-result without losing concurrent updates: with no fault, it returns nil and commits `t old` directly on
-top of the history it saw at its flock step. -/
-def transform_ok_statement : Prop :=
-  ∀ (files0 : Path → Option Bytes) (s : State) (c : Cid) (fr : Frame) (p : Path) (t : Bytes → Option Bytes)
-    (r : Ret) (old new : Bytes),
-    Reachable files0 s → (s.cl c).cur = some fr → fr.op = .transform p t → fr.pc = .done r → fr.flt = [] →
-    fr.h1.head? = some old → t old = some new → r = .ok ∧ fr.committed = some new
+/-- **transform_ok**: with no fault, for ALL old and new contents (all three length relations
+|new| < / = / > |old|: shrinking truncate, plain overwrite, tail-first growth), Transform returns nil and
+the contents it leaves behind when it releases its lock are `new = t old`, committed directly on top of
+the history whose newest entry `old` it read (**no lost update**). -/
+theorem transform_ok {files0 : Path → Option Bytes} {s : State} (hr : Reachable files0 s) {c : Cid} {fr : Frame}
+    {p : Path} {t : Bytes → Option Bytes} {r : Ret} {old new : Bytes} (hc : (s.cl c).cur = some fr)
+    (hop : fr.op = .transform p t) (hpc : fr.pc = .done r) (hflt : fr.flt = [])
+    (hold : fr.h1.head? = some old) (ht : t old = some new) :
+    r = .ok ∧ fr.committed = some new ∧ (new :: fr.h1) <:+ s.w.hist p := by
+  obtain ⟨⟨hfin, hsome⟩, hpush⟩ := transform_done hr hc hop hpc
+  have hne : fr.h1 ≠ [] := by intro e; rw [e] at hold; cases hold
+  have hc' := hsome hne (by rw [hflt]; intro x hx; cases hx)
+  obtain ⟨v, hv⟩ := Option.isSome_iff_exists.1 hc'
+  obtain ⟨o, ho, hcase⟩ := hfin v hv
+  rw [hold] at ho; cases ho
+  rcases hcase with ⟨h1, h2, _⟩ | ⟨_, _, h3⟩
+  · rw [ht] at h2; cases h2
+    exact ⟨h1, hv, hpush _ hv⟩
+  · rcases h3 with h3 | h3
+    · exact absurd hflt h3
+    · rw [ht] at h3; cases h3
 
-/-- **Statement**: ∀ old new, ∀ single fault — fail or short k — at any one of Transform's data steps
-(read, tail write, body write, shrinking truncate), or an error from the function: Transform returns an
-error and the contents it leaves behind are the old ones. -/
-def transform_fault_statement : Prop :=
-  ∀ (files0 : Path → Option Bytes) (s : State) (c : Cid) (fr : Frame) (p : Path) (t : Bytes → Option Bytes)
-    (r : Ret) (old : Bytes),
-    Reachable files0 s → (s.cl c).cur = some fr → fr.op = .transform p t → fr.pc = .done r →
-    fr.h1.head? = some old →
-    ((∃ tag f, fr.flt = [(tag, f)] ∧ (tag = .read ∨ tag = .tail ∨ tag = .body ∨ tag = .shrink)) ∨
-      (fr.flt = [] ∧ t old = none)) →
-    r = .err ∧ fr.committed = some old
+/-- **transform_fault**: for ALL old and new, after any SINGLE fault — fail, EINTR or short write of any
+`k` bytes — at any one of Transform's data steps (the ReadAll reads, the tail pwrite, the body pwrite, the
+shrinking ftruncate), or with no fault and an error from the function, Transform returns an error and the
+contents it leaves behind when it releases its lock are the old ones. -/
+theorem transform_fault {files0 : Path → Option Bytes} {s : State} (hr : Reachable files0 s) {c : Cid} {fr : Frame}
+    {p : Path} {t : Bytes → Option Bytes} {r : Ret} {old : Bytes} (hc : (s.cl c).cur = some fr)
+    (hop : fr.op = .transform p t) (hpc : fr.pc = .done r) (hold : fr.h1.head? = some old)
+    (hf : (∃ tag f, fr.flt = [(tag, f)] ∧ (tag = .read ∨ tag = .tail ∨ tag = .body ∨ tag = .shrink)) ∨
+      (fr.flt = [] ∧ t old = none)) :
+    r = .err ∧ fr.committed = some old ∧ (old :: fr.h1) <:+ s.w.hist p := by
+  obtain ⟨⟨hfin, hsome⟩, hpush⟩ := transform_done hr hc hop hpc
+  have hne : fr.h1 ≠ [] := by intro e; rw [e] at hold; cases hold
+  have hnouc : NoUC fr.flt := by
+    rcases hf with ⟨tag, f, e, ht⟩ | ⟨e, _⟩ <;> rw [e] <;> intro x hx
+    · simp only [List.mem_singleton] at hx; subst hx
+      rcases ht with rfl | rfl | rfl | rfl <;> simp
+    · cases hx
+  have hnorb : NoRb fr.flt := by
+    rcases hf with ⟨tag, f, e, ht⟩ | ⟨e, _⟩ <;> rw [e] <;> intro x hx
+    · simp only [List.mem_singleton] at hx; subst hx
+      rcases ht with rfl | rfl | rfl | rfl <;> simp
+    · cases hx
+  obtain ⟨v, hv⟩ := Option.isSome_iff_exists.1 (hsome hne hnouc)
+  obtain ⟨o, ho, hcase⟩ := hfin v hv
+  rw [hold] at ho; cases ho
+  rcases hcase with ⟨_, h2, h3⟩ | ⟨h1, h2, _⟩
+  · -- a nil result is impossible
+    rcases hf with ⟨tag, f, e, ht⟩ | ⟨_, e⟩
+    · have := h3 (tag, f) (by rw [e]; simp)
+      rcases ht with rfl | rfl | rfl | rfl <;> simp at this
+    · rw [e] at h2; cases h2
+  · have := h2 hnorb; subst this
+    exact ⟨h1, hv, hpush _ hv⟩
 
-/-- **Statement** (the invariant behind the two above, `TransOK` of Lemmas/LockedfileTransform): whatever
-the faults, what a Transform commits is `t old` if it returns nil and `old` if it returns an error,
-unless a fault hit one of the roll-back steps themselves (then old contents can be lost: the property
-says "any single" failure). -/
-def transform_commits_statement : Prop :=
-  ∀ (files0 : Path → Option Bytes) (s : State) (c : Cid) (fr : Frame) (p : Path) (t : Bytes → Option Bytes)
-    (r : Ret) (v : Bytes),
-    Reachable files0 s → (s.cl c).cur = some fr → fr.op = .transform p t → fr.pc = .done r →
-    fr.committed = some v → TFin t fr.h1 fr.flt r v
+/-- **transform_commits**: whatever the faults, what a Transform commits is `t old` if it returns nil, and
+`old` if it returns an error unless a fault hit one of the roll-back steps themselves (tail undo, the two
+deferred roll-back steps); and the commit sits directly on top of the history it read. -/
+theorem transform_commits {files0 : Path → Option Bytes} {s : State} (hr : Reachable files0 s) {c : Cid} {fr : Frame}
+    {p : Path} {t : Bytes → Option Bytes} {r : Ret} {v : Bytes} (hc : (s.cl c).cur = some fr)
+    (hop : fr.op = .transform p t) (hpc : fr.pc = .done r) (hv : fr.committed = some v) :
+    (∃ old, fr.h1.head? = some old ∧ ((r = .ok ∧ t old = some v) ∨ (r = .err ∧ (NoRb fr.flt → v = old)))) ∧
+    (v :: fr.h1) <:+ s.w.hist p := by
+  obtain ⟨⟨hfin, _⟩, hpush⟩ := transform_done hr hc hop hpc
+  obtain ⟨o, ho, hcase⟩ := hfin v hv
+  refine ⟨⟨o, ho, ?_⟩, hpush v hv⟩
+  rcases hcase with ⟨h1, h2, _⟩ | ⟨h1, h2, _⟩
+  · exact .inl ⟨h1, h2⟩
+  · exact .inr ⟨h1, h2⟩
+
+/-- **write_commits**: a Write that suffers no fault returns nil and commits exactly its content, directly
+on top of the history of its flock step. -/
+theorem write_commits {files0 : Path → Option Bytes} {s : State} (hr : Reachable files0 s) {c : Cid} {fr : Frame}
+    {p : Path} {content : Bytes} {r : Ret} (hc : (s.cl c).cur = some fr) (hop : fr.op = .write p content)
+    (hpc : fr.pc = .done r) (hflt : fr.flt = []) :
+    r = .ok ∧ fr.committed = some content ∧ (content :: fr.h1) <:+ s.w.hist p := by
+  have := reachable_Inv5 hr c fr p content hc hop
+  unfold WriteOK at this; rw [hpc] at this
+  have hp : fr.op.path = p := by rw [hop]; rfl
+  rw [hp] at this
+  rcases this.1 with ⟨h1, h2⟩ | ⟨_, h2⟩
+  · exact ⟨h1, h2, this.2 _ h2⟩
+  · exact absurd hflt h2
+
+/-! ### linearizability -/
+
+/-- The commit history of a file only grows (by appending at the head): it is one total order. -/
+theorem history_append_only {s s' : State} (ls : List Label) (h : runLabels s ls = some s') (p : Path) :
+    s.w.hist p <:+ s'.w.hist p := by
+  induction ls generalizing s with
+  | nil => simp [runLabels] at h; subst h; exact List.suffix_refl _
+  | cons l ls ih =>
+    simp only [runLabels] at h
+    cases hs : step s l with
+    | none => simp [hs] at h
+    | some s1 =>
+      simp [hs] at h
+      exact (step_hist_suffix hs p).trans (ih h)
+
+/-- The sequential register specification of one completed operation, against the commit order `hist` of
+its file (newest first).  `h1` is the order as it was at the operation's linearization point (its flock
+step), `h0` the order when it was called:
+* the linearization point lies between call and return (`h0 <:+ h1 <:+ hist`: real-time order);
+* a Read returns the newest value at its linearization point;
+* a fault-free Write inserts its content right there;
+* a Transform inserts `t old` right there, `old` being the newest value at that point — or re-commits `old`
+  if its function fails or after a single fault at a data step, and then returns an error. -/
+def LinSpec (fr : Frame) (r : Ret) (hist : List Bytes) : Prop :=
+  match fr.op with
+  | .read _ => ∀ v, r = .bytes v → fr.h1.head? = some v ∧ fr.h0 <:+ fr.h1 ∧ fr.h1 <:+ hist
+  | .write _ content => fr.flt = [] → r = .ok ∧ fr.h0 <:+ fr.h1 ∧ (content :: fr.h1) <:+ hist
+  | .transform _ t => ∀ old, fr.h1.head? = some old →
+      fr.h0 <:+ fr.h1 ∧
+      (∀ new, fr.flt = [] → t old = some new → r = .ok ∧ (new :: fr.h1) <:+ hist) ∧
+      (((∃ tag f, fr.flt = [(tag, f)] ∧ (tag = .read ∨ tag = .tail ∨ tag = .body ∨ tag = .shrink)) ∨
+          (fr.flt = [] ∧ t old = none)) → r = .err ∧ (old :: fr.h1) <:+ hist)
+  | _ => True
+
+/-- **linearizable**: in every reachable state, every Read / Write / Transform that is about to return
+satisfies the sequential register specification against the single commit order of its file (= lock order,
+`commit_on_release`), at a linearization point between its call and its return.  Since that order only grows
+(`history_append_only`), the completed operations of any execution are equivalent to the sequential history
+in lock order, and lock order contains real-time order. -/
+theorem linearizable {files0 : Path → Option Bytes} {s : State} (hr : Reachable files0 s) {c : Cid} {fr : Frame}
+    {r : Ret} (hc : (s.cl c).cur = some fr) (hpc : fr.pc = .done r) : LinSpec fr r (s.w.hist fr.op.path) := by
+  have hpost : fr.op.opens = true → fr.h1 ≠ [] → fr.h0 <:+ fr.h1 := by
+    intro ho hne
+    have := (reachable_Inv2 hr).hist c fr hc ho
+    unfold HistOK at this
+    rw [hpc] at this
+    cases r <;> simp [Pc.preLock, Pc.locked] at this <;> first | exact this.resolve_left hne | exact this.2
+  unfold LinSpec
+  cases hop : fr.op with
+  | read p =>
+    intro v hv; subst hv
+    have h1 := read_complete hr hc hop hpc
+    have hp : fr.op.path = p := by rw [hop]; rfl
+    exact ⟨h1, read_not_stale hr hc hop hpc, by rw [← hp]; exact reachable_Inv2b hr c fr hc⟩
+  | write p content =>
+    intro hflt
+    obtain ⟨h1, h2, h3⟩ := write_commits hr hc hop hpc hflt
+    have hne : fr.h1 ≠ [] := reachable_committed_h1 hr c fr hc (by rw [hop]; rfl) (by rw [h2]; rfl)
+    exact ⟨h1, hpost (by rw [hop]; rfl) hne, h3⟩
+  | transform p t =>
+    intro old hold
+    have hne : fr.h1 ≠ [] := by intro e; rw [e] at hold; cases hold
+    refine ⟨hpost (by rw [hop]; rfl) hne, fun new hflt ht => ?_, fun hf => ?_⟩
+    · obtain ⟨h1, _, h3⟩ := transform_ok hr hc hop hpc hflt hold ht
+      exact ⟨h1, h3⟩
+    · obtain ⟨h1, _, h3⟩ := transform_fault hr hc hop hpc hold hf
+      exact ⟨h1, h3⟩
+  | _ => trivial
+
+/-- **Lock order contains real-time order**: an operation B that is called after operation A has passed its
+linearization point (in particular after A has returned) starts from a history that already contains
+everything A saw — and B's own linearization point comes later still (`h0 <:+ h1` in `LinSpec`). -/
+theorem real_time_order {files0 : Path → Option Bytes} {s1 s2 s3 : State} (hr : Reachable files0 s1) {cA cB : Cid}
+    {frA : Frame} {opB : Op} (ls : List Label) (hA : (s1.cl cA).cur = some frA) (hrun : runLabels s1 ls = some s2)
+    (hcall : step s2 ⟨cB, .call opB⟩ = some s3) (hp : opB.path = frA.op.path) :
+    ∃ frB, (s3.cl cB).cur = some frB ∧ frB.op = opB ∧ frA.h1 <:+ frB.h0 := by
+  obtain ⟨frB, h1, h2, h3⟩ := call_snapshots_history hcall
+  refine ⟨frB, h1, h2, ?_⟩
+  rw [h3, hp]
+  exact (reachable_Inv2b hr cA frA hA).trans (history_append_only ls hrun _)
+
+/-- … and if A is a Write / Transform that has committed `v`, B starts from a history that contains that
+commit: no later operation can miss it. -/
+theorem real_time_order_commit {s1 s2 s3 : State} {cB : Cid} {frA : Frame} {opB : Op} {v : Bytes} (ls : List Label)
+    (hpush : (v :: frA.h1) <:+ s1.w.hist frA.op.path) (hrun : runLabels s1 ls = some s2)
+    (hcall : step s2 ⟨cB, .call opB⟩ = some s3) (hp : opB.path = frA.op.path) :
+    ∃ frB, (s3.cl cB).cur = some frB ∧ frB.op = opB ∧ (v :: frA.h1) <:+ frB.h0 := by
+  obtain ⟨frB, h1, h2, h3⟩ := call_snapshots_history hcall
+  refine ⟨frB, h1, h2, ?_⟩
+  rw [h3, hp]
+  exact hpush.trans (history_append_only ls hrun _)
+
+/-! non-vacuity: concrete runs in which the hypotheses of the theorems above hold -/
+
+/-- what client 0's running operation looks like after a run: control point, commit, faults, history at its flock -/
+abbrev final (ls : List Label) : Option (Pc × Option Bytes × List (Tag × Fault)) :=
+  ((run ls).bind fun s => (s.cl 0).cur).map fun fr => (fr.pc, fr.committed, fr.flt)
+abbrev finalH1 (ls : List Label) : Option (List Bytes) := ((run ls).bind fun s => (s.cl 0).cur).map fun fr => fr.h1
+
+def writeAB : List Label := [⟨0, .call (.write 0 [97, 98])⟩, sy 0, sy 0, sy 0, sy 0, sy 0, sy 0]
+
+/-- `write_commits`: a fault-free Write "ab" is about to return nil, having committed "ab" on top of [""] -/
+example : final writeAB = some (.done .ok, some [97, 98], []) ∧ finalH1 writeAB = some [[]] := by decide +kernel
+
+def transformTo (new : Bytes) (k : Nat) : List Label :=
+  writeAB ++ [⟨0, .ret⟩, ⟨0, .call (.transform 0 (fun _ => some new))⟩] ++ List.replicate k (sy 0)
+
+/-- `transform_ok`, |new| > |old| (tail first: 4 steps to read, tail, body, unlock, close) -/
+example : final (transformTo [97, 98, 99, 100] 8) = some (.done .ok, some [97, 98, 99, 100], []) ∧ finalH1 (transformTo [97, 98, 99, 100] 8) = some [[97, 98], []] := by
+  decide +kernel
+/-- `transform_ok`, |new| = |old| -/
+example : final (transformTo [120, 121] 7) = some (.done .ok, some [120, 121], []) ∧ finalH1 (transformTo [120, 121] 7) = some [[97, 98], []] := by
+  decide +kernel
+/-- `transform_ok`, |new| < |old| (write, then shrinking truncate) -/
+example : final (transformTo [113] 8) = some (.done .ok, some [113], []) ∧ finalH1 (transformTo [113] 8) = some [[97, 98], []] := by decide +kernel
+/-- `transform_ok`, new empty -/
+example : final (transformTo [] 8) = some (.done .ok, some [], []) ∧ finalH1 (transformTo [] 8) = some [[97, 98], []] := by decide +kernel
+
+/-- `transform_fault`: a short tail write (1 of 2 bytes stored) is undone by the truncate -/
+example : final (transformTo [97, 98, 99, 100] 4 ++ [⟨0, .sys (.short 1) 0⟩, sy 0, sy 0, sy 0]) = some (.done .err, some [97, 98], [(.tail, .short 1)]) ∧ finalH1 (transformTo [97, 98, 99, 100] 4 ++ [⟨0, .sys (.short 1) 0⟩, sy 0, sy 0, sy 0]) = some [[97, 98], []] := by decide +kernel
+/-- `transform_fault`: a failing shrinking truncate is rolled back -/
+example : final (transformTo [113] 5 ++ [⟨0, .sys .fail 0⟩, sy 0, sy 0, sy 0, sy 0]) = some (.done .err, some [97, 98], [(.shrink, .fail)]) ∧ finalH1 (transformTo [113] 5 ++ [⟨0, .sys .fail 0⟩, sy 0, sy 0, sy 0, sy 0]) = some [[97, 98], []] := by decide +kernel
+/-- `transform_fault`: an error from the function -/
+example : final (writeAB ++ [⟨0, .ret⟩, ⟨0, .call (.transform 0 (fun _ => none))⟩] ++ List.replicate 6 (sy 0)) =
+    some (.done .err, some [97, 98], []) := by decide +kernel
+
+/-- `linearizable` / `LinSpec` instantiated on the Read of `demoWR` -/
+example : LinSpec ((((run demoWR).get demoWR_some).cl 1).cur.get (by decide +kernel)) (.bytes [97, 98])
+    (((run demoWR).get demoWR_some).w.hist 0) :=
+  linearizable (reachable_run demoWR .init (Option.some_get demoWR_some).symm) (Option.some_get _).symm (by rfl)
 
 /-- the fault statements are about real behaviour of the model: a Transform "xyz" ↦ "q" whose body write
 (3rd data step) fails rolls back and commits the old contents … -/
